@@ -563,6 +563,22 @@ def rename_constructions(world, names):
   return out
 
 
+def override_methods(world):
+  """{(action, table_id): FuncInfo} from @override_action(<action>, <table>) on UserActions
+  methods; the decorator's arguments are read by parameter name (positional or keyword)."""
+  ci = world.repo.cls("useractions.UserActions")
+  deco = world.repo.module("useractions").functions.get("override_action")
+  names = deco.params() if deco is not None else ["action_name", "table_id"]
+  out = {}
+  for n, f in ci.methods.items():
+    for d in f.decorators():
+      if isinstance(d, ast.Call) and dotted(d.func) == "override_action":
+        b = bind_args(d, names)
+        if b and len(b) == 2 and all(isinstance(b[k], ast.Constant) for k in names[:2]):
+          out[(b[names[0]].value, b[names[1]].value)] = f
+  return out
+
+
 HARMLESS, HARMFUL, UNKNOWN = "harmless", "harmful", "unknown"
 
 
@@ -584,8 +600,8 @@ class RenameSite(object):
     self.du = self.view.du
     self.emits = []
     for (n, c, nm) in fn.calls():
-      if E.is_gateway_call(c, nm, fn) and c.args:
-        ctor = E.action_ctor(self.view.res(c.args[0]), action_names)
+      if E.is_gateway_call(c, nm, fn) and self.view.arg(c, 0) is not None:
+        ctor = E.action_ctor(self.view.res(self.view.arg(c, 0)), action_names)
         if ctor is not None:
           self.emits.append((n.id, c, ctor[1], ctor[0]))
     self.preps = [(n.id, c) for (n, c, nm) in fn.calls()
@@ -898,6 +914,7 @@ class View(object):
     self._kills = {}        # atom key -> set of def node ids whose re-execution renews a value
     self._nonplain = None
     self._mut_roots = None
+    self._gn = None
 
   # ------------------------------------------------------------------ bindings
   def _gens(self):
@@ -1194,7 +1211,10 @@ class View(object):
         b = set(self.bound) | {a.arg for a in n.args.args}
         return T(self.d, b, self.nid).generic_visit(n)
 
-    return T(depth, set(bound), nid0).visit(copy.deepcopy(expr)), used
+    out = T(depth, set(bound), nid0).visit(copy.deepcopy(expr))
+    if any(isinstance(y, ast.Call) and y.keywords for y in ast.walk(out)):
+      out = self.positional(out)
+    return out, used
 
   def x(self, expr, at=None, depth=8, bound=()):
     return self.xd(expr, at, depth, bound)[0]
@@ -1231,6 +1251,137 @@ class View(object):
 
   def res(self, expr, at=None):
     return self.resolve(expr, at=at)[0]
+
+  # ------------------------------------------------------------------ calls
+  def callee(self, call):
+    """(FuncInfo, is_bound) of the repository function a call names, or None: self.m / cls.m
+    (through the class hierarchy), a module-level function, module.func through an import, a
+    class (its __init__), or -- for other receivers -- the only method of that name in the
+    repository. is_bound: the first parameter (self/cls) is supplied by the receiver."""
+    repo = self.fn.world.repo
+    f = call.func
+    fi = self.fn.fi
+    top = fi
+    while top.parent is not None:
+      top = top.parent
+    mod = fi.module
+    if isinstance(f, ast.Attribute):
+      if isinstance(f.value, ast.Name) and f.value.id in ("self", "cls") and top.cls is not None:
+        m = repo.find_method(top.cls, f.attr)
+        if m is not None:
+          return m, not any(dotted(d) == "staticmethod" for d in m.decorators())
+      d = dotted(f)
+      if d is not None and d.count(".") == 1:
+        head, attr = d.split(".")
+        imp = mod.imports.get(head)
+        if imp is not None and imp[0] == "module" and imp[1] in repo.modules and \
+            not self.reaching(head, self.point_of(call) or self.cfg.entry.id):
+          m = repo.modules[imp[1]]
+          if attr in m.functions:
+            return m.functions[attr], False
+          if attr in m.classes and "__init__" in m.classes[attr].methods:
+            return m.classes[attr].methods["__init__"], True
+          return None
+      owners = [c.methods[f.attr] for c in repo.classes.values() if f.attr in c.methods]
+      if len(owners) == 1:
+        return owners[0], not any(dotted(d) == "staticmethod" for d in owners[0].decorators())
+      return None
+    if isinstance(f, ast.Name):
+      if self._gens_names().get(f.id):
+        return None           # a local of that name
+      if f.id in mod.functions:
+        return mod.functions[f.id], False
+      if f.id in mod.classes and "__init__" in mod.classes[f.id].methods:
+        return mod.classes[f.id].methods["__init__"], True
+      imp = mod.imports.get(f.id)
+      if imp is not None and imp[0] == "name" and imp[1] in repo.modules:
+        m = repo.modules[imp[1]]
+        if imp[2] in m.functions:
+          return m.functions[imp[2]], False
+        if imp[2] in m.classes and "__init__" in m.classes[imp[2]].methods:
+          return m.classes[imp[2]].methods["__init__"], True
+    return None
+
+  def _gens_names(self):
+    if self._gn is None:
+      out = {}
+      for nid, names in self._gens().items():
+        for nm in names:
+          out.setdefault(nm, set()).add(nid)
+      self._gn = out
+    return self._gn
+
+  def call_params(self, call):
+    """Parameter names a call's arguments bind to (receiver excluded), or None."""
+    r = self.callee(call)
+    if r is None:
+      # namedtuple-style action constructors
+      d = dotted(call.func)
+      if d is not None:
+        last = d.split(".")[-1]
+        try:
+          fields = self.fn.world.action_types().get(last)
+        except AnalysisError:
+          fields = None
+        if fields and (d == last or d == "actions." + last):
+          return list(fields)
+      return None
+    fi, bound = r
+    a = fi.node.args
+    if a.vararg or a.kwarg or a.posonlyargs:
+      return None
+    ps = [x.arg for x in a.args]
+    return ps[1:] if bound and ps else ps
+
+  def bind(self, call, fallback=None):
+    """{parameter name: argument expr} of a call, positional or keyword alike, against the
+    parameter list of the function it names (or `fallback` names when that is not known)."""
+    ps = self.call_params(call)
+    if ps is None:
+      ps = fallback
+    if ps is None:
+      return None
+    return bind_args(call, ps)
+
+  def arg(self, call, pos):
+    """The pos-th argument (receiver not counted) whether it is passed by position or keyword."""
+    if len(call.args) > pos and not any(isinstance(a, ast.Starred) for a in call.args[:pos + 1]):
+      return call.args[pos]
+    ps = self.call_params(call)
+    if ps is not None and pos < len(ps):
+      for k in call.keywords:
+        if k.arg == ps[pos]:
+          return k.value
+    return None
+
+  def positional(self, e):
+    """`e` (a copy is not made: pass a private copy) with keyword arguments of calls to known
+    repository functions moved to their positions, so that `f(a, b)` and `f(p=a, q=b)` have one
+    text."""
+    view = self
+
+    class P(ast.NodeTransformer):
+      def visit_Call(self, n):
+        self.generic_visit(n)
+        if not n.keywords or any(k.arg is None for k in n.keywords) or \
+            any(isinstance(a, ast.Starred) for a in n.args):
+          return n
+        ps = view.call_params(n)
+        if ps is None:
+          return n
+        b = bind_args(n, ps)
+        if b is None:
+          return n
+        k = 0
+        while k < len(ps) and ps[k] in b:
+          k += 1
+        if len(b) != k:
+          return n              # a gap: some later parameter is given, an earlier one is not
+        n.args = [b[p] for p in ps[:k]]
+        n.keywords = []
+        return n
+
+    return P().visit(e)
 
   def alternatives(self, expr, at=None, facts=None, depth=6):
     """Every value `expr` may have where it is evaluated, as [(value expr, node id at which that
